@@ -90,7 +90,8 @@ def bounded(tier, seed):
                                 'import sys, os\nsys.path.insert(0, %r); sys.path.insert(0, os.environ.get("VERIF_REPO", "/repo"))\n'
                                 'from specs.c17_listing import replay_listing\nsys.exit(replay_listing(%r, %r, %r))\n' % (bad, top_paths, np, inner_paths, VERIF, list(top_paths), np, inner_paths))
                     viol.append({'what': bad + ' (top-level %r, nested site at %r with %r)' % (top_paths, np, inner_paths), 'replay': path})
-    return [{'name': 'C17/discovery-lists-routable-full-paths', 'tool': 'bounded enumeration (native Site objects)',
+    copy_standin = copy_conformance()
+    return [copy_standin, {'name': 'C17/discovery-lists-routable-full-paths', 'tool': 'bounded enumeration (native Site objects)',
              'bound': 'pairs of top-level paths over %r up to 2 components x 3 nesting points x 4 inner layouts' % comps,
              'inputs_tried': n, 'samples': samples, 'violations': viol, 'known': [{'id': k, 'what': v} for k, v in known.items()], 'counted_as_proved': False}]
 
@@ -133,3 +134,43 @@ def replay_listing(top_paths, np, inner_paths):
         print(l.href, '->', got, '(describes %s)' % t)
         bad |= got != t
     return 1 if bad else 0
+
+
+def copy_conformance():
+    """Conformance of the assumed contract of Message.copy (A-COPYOPT: a new message with a new Options object; every field and
+    option view equals the original's unless overridden by keyword), which the routing contracts rely on.  Bounded."""
+    import os
+    from aiocoap import Message, GET
+    from aiocoap.numbers.types import Type
+    VERIF = os.path.dirname(os.path.dirname(os.path.abspath(__file__)))
+    samples = {'uri_path': (('a', ''), ('b',)), 'uri_query': (('x=1',), ()), 'uri_host': ('h', None), 'uri_port': (5683, None), 'observe': (0, 7),
+               'block1': ((1, True, 2), None), 'block2': ((0, False, 6), None), 'etag': (b'e1', None), 'content_format': (40, 0), 'accept': (40, None),
+               'echo': (b'c', None), 'request_tag': ((b't',), ()), 'max_age': (5, None), 'location_path': (('l',), ()), 'proxy_scheme': ('coap', None),
+               'no_response': (26, None), 'size1': (9, None), 'size2': (9, None), 'if_none_match': (True, False), 'hop_limit': (3, None)}
+    viol, n = [], 0
+
+    def get(m, v):
+        x = getattr(m.opt, v)
+        if hasattr(x, 'block_number'):
+            return (x.block_number, x.more, x.size_exponent)
+        return int(x) if v in ('content_format', 'accept') and x is not None else x
+    for v, (val, other) in samples.items():
+        for override in (False, True):
+            n += 1
+            m = Message(code=GET, payload=b'p', **{v: val})
+            m.mtype, m.mid, m.token = Type.CON, 7, b'tk'
+            m.opt.uri_host = m.opt.uri_host or 'keep.example'
+            c = m.copy(**({v: other} if override else {}))
+            want = other if override else val
+            ok = (c is not m and c.opt is not m.opt and get(c, v) == want and get(m, v) == val and c.code == m.code and c.mtype == m.mtype and c.mid == m.mid
+                  and c.token == m.token and c.payload == m.payload and (v == 'uri_host' or c.opt.uri_host == m.opt.uri_host))
+            if not ok and len(viol) < 5:
+                path = os.path.join(VERIF, 'replays', 'C17-copy-%d.py' % (len(viol) + 1))
+                os.makedirs(os.path.dirname(path), exist_ok=True)
+                with open(path, 'w') as f:
+                    f.write('#!/venv/bin/python\n"""C17 replay (bounded conformance of Message.copy): view %s"""\nimport sys, os\nsys.path.insert(0, os.environ.get("VERIF_REPO", "/repo"))\n'
+                            'from aiocoap import Message, GET\nm = Message(code=GET, payload=b"p", **{%r: %r})\nc = m.copy(**%r)\nprint(getattr(c.opt, %r), getattr(m.opt, %r))\n'
+                            'sys.exit(0 if c.opt is not m.opt and getattr(c.opt, %r) == %r else 1)\n' % (v, v, val, ({v: other} if override else {}), v, v, v, want))
+                viol.append({'what': 'Message.copy(%s): option view %s of the copy is %r, expected %r' % ('%s=%r' % (v, other) if override else '', v, getattr(c.opt, v), want), 'replay': path})
+    return {'name': 'C17/message-copy-conformance (A-COPYOPT)', 'tool': 'bounded enumeration (native)', 'bound': '%d option views x with/without override' % len(samples),
+            'inputs_tried': n, 'samples': [{'view': 'uri_path', 'value': ('a', ''), 'override': ('b',)}], 'violations': viol, 'counted_as_proved': False}
